@@ -167,11 +167,11 @@ func RandOf(r *rng.R, dt val.DT, shape []int) *val.V {
 	return RandInt(r, dt, shape, -9, 9)
 }
 
-func data(v *val.V, axis int) Operand   { return Operand{V: v, BatchAxis: axis} }
-func weight(v *val.V) Operand           { return Operand{V: v, BatchAxis: -1, Weight: true} }
-func fixed(v *val.V) Operand            { return Operand{V: v, BatchAxis: -1, Weight: true, Fixed: true} }
-func absent() Operand                   { return Operand{BatchAxis: -1} }
-func pick[T any](r *rng.R, xs ...T) T   { return xs[r.Intn(len(xs))] }
+func data(v *val.V, axis int) Operand { return Operand{V: v, BatchAxis: axis} }
+func weight(v *val.V) Operand         { return Operand{V: v, BatchAxis: -1, Weight: true} }
+func fixed(v *val.V) Operand          { return Operand{V: v, BatchAxis: -1, Weight: true, Fixed: true} }
+func absent() Operand                 { return Operand{BatchAxis: -1} }
+func pick[T any](r *rng.R, xs ...T) T { return xs[r.Intn(len(xs))] }
 func i64s(xs ...int) []int64 {
 	o := make([]int64, len(xs))
 	for i, x := range xs {
@@ -623,16 +623,16 @@ func RandIntFixed(dt val.DT, xs ...int) *val.V {
 
 // Recurrent describes one RNN/GRU/LSTM node configuration.
 type Recurrent struct {
-	Kind       string `json:"kind"`
-	Input      int    `json:"input"`
-	Hidden     int    `json:"hidden"`
-	HasB       bool   `json:"has_b"`
-	HasH0      bool   `json:"has_h0"`
-	HasC0      bool   `json:"has_c0"`
-	HasP       bool   `json:"has_p"`
-	LBR        int    `json:"linear_before_reset"`
-	Acts       []string `json:"activations,omitempty"`
-	ExplicitLBR bool  `json:"explicit_lbr"`
+	Kind        string   `json:"kind"`
+	Input       int      `json:"input"`
+	Hidden      int      `json:"hidden"`
+	HasB        bool     `json:"has_b"`
+	HasH0       bool     `json:"has_h0"`
+	HasC0       bool     `json:"has_c0"`
+	HasP        bool     `json:"has_p"`
+	LBR         int      `json:"linear_before_reset"`
+	Acts        []string `json:"activations,omitempty"`
+	ExplicitLBR bool     `json:"explicit_lbr"`
 	// InputForget: LSTM attribute input_forget (-1 = attribute absent); Direction: explicit "forward" attribute
 	InputForget int  `json:"input_forget"`
 	Direction   bool `json:"direction"`
